@@ -92,14 +92,7 @@ func modMathDiv(ctx *Ctx, buf *any, val any, args []any) (err error) {
 	if f, d, err, ok = mathConv2(val, args); !ok {
 		return
 	}
-	if d == 0 {
-		var sign int
-		if f < 0 {
-			sign = -1
-		}
-		ctx.BufF = math.Inf(sign)
-		return
-	}
+	// Division by zero follows IEEE 754: ±Inf, or NaN for 0/0.
 	f /= d
 	ctx.BufF = f
 	*buf = &ctx.BufF
